@@ -2,11 +2,10 @@
 """Writes MANIFEST.json from the table below (kept here so that the file is always valid)."""
 import json, os
 V = os.path.dirname(os.path.dirname(os.path.abspath(__file__)))
-CLAIMED = {
- 'C10': dict(text='Lean theorems writen_valid / writen_no_fault / valid_reply_no_bare_crlf over a faithful model of net_writen (all first parts within the contract, all embedded strings of any length, blanks anywhere): valid folded reply, <= 512 octets per line, complete text, no fault. Contract provider templates_in_contract is re-proved over the reply templates extracted from the source on every run. Model tied to lib/netio.c by a differential run (ASan/UBSan harness including the real file) on every check.',
-             note='Trusted: Lean kernel; axioms propext, Classical.choice, Quot.sound; tools/extract.py; the differential harness and its generators. Modelled not verified: net_writen, net_write_multiline bodies. Outside: write(2), the nomail text used as first part (filters/nomail.c).',
-             technique='Lean 4 proof over hand model + differential correspondence with the C function + regenerated constants', design='6/C10'),
-}
+import glob
+CLAIMED = {}
+for f in sorted(glob.glob(os.path.join(V, 'tools', 'claims', 'C*.json'))):
+    CLAIMED[os.path.basename(f)[:-5]] = json.load(open(f))
 NA = {}
 props = [json.loads(l)['id'] for l in open(os.path.join(V, 'properties.jsonl'))]
 m = {
